@@ -44,7 +44,7 @@ def replay_brinkmann(chk, cases):
             chi = np.array([e["cs"]["c"] / 4 for e in es] + [0] * pad, dtype=real_t).reshape(ny, nx)
             want = np.array([e["r"][0] / e["r"][1] for e in es] + [0.0] * pad).reshape(ny, nx)
             outs = {}
-            o = np.full((ny, nx), 9, dtype=real_t)
+            o = kernels.as_view(np.full((ny, nx), 9, dtype=real_t))          # destinations are strided views of larger buffers
             kernels.gen("gen_brinkmann_penalise_pyst_kernel_2d", real_t)(penalised_field=o, field=f, char_field=chi, penalty_field=t, penalty_factor=real_t(lam))
             outs["2d scalar"] = o
             ov = np.full((2, ny, nx), 9, dtype=real_t)
@@ -56,7 +56,7 @@ def replay_brinkmann(chk, cases):
             o3 = np.full(f3.shape, 9, dtype=real_t)
             kernels.gen("gen_brinkmann_penalise_pyst_kernel_3d", real_t)(penalised_field=o3, field=f3.copy(), char_field=c3.copy(), penalty_field=t3.copy(), penalty_factor=real_t(lam))
             outs["3d scalar"] = o3.reshape(ny, nx)
-            ov3 = np.full((3,) + f3.shape, 9, dtype=real_t)
+            ov3 = kernels.as_view(np.full((3,) + f3.shape, 9, dtype=real_t))
             kernels.gen("gen_brinkmann_penalise_pyst_kernel_3d", real_t, field_type="vector")(
                 penalised_vector_field=ov3, penalty_factor=real_t(lam), char_field=c3.copy(), penalty_vector_field=np.stack([t3, -t3, 2 * t3]),
                 vector_field=np.stack([f3, -f3, 2 * f3]))
@@ -131,7 +131,7 @@ def replay_damp(chk, e, rng):
             shim.set_backend("compile")
             f0 = rng.integers(-9, 10, ((3,) if vector else ()) + shape).astype(real_t)
             f0[f0 == 0] = 3
-            f = f0.copy()
+            f = kernels.operand(f0)
             try:
                 k = getattr(kernels.spne(), f"gen_penalise_field_boundary_pyst_kernel_{D}d")(real_t=real_t, **kw)
                 if vector:
@@ -208,7 +208,7 @@ def apply_filter(f, n, ty, real_t, rng, vector=False):
     b1[...] = rng.normal(size=shape).astype(real_t) * 1e6  # stale garbage in both work buffers
     b1[0, 0, 0] = np.inf
     b2[...] = np.nan
-    g = f.copy()
+    g = kernels.operand(f)
     with np.errstate(all="ignore"):
         if vector:
             k(vector_field=g)
